@@ -49,7 +49,7 @@ def one(args):
     for pid in pids:
         try:
             rep, mod = evaluate(pid, "quick", tree, skip_a3=not a3)
-            for v in rep.violations:
+            for v in rep.unlisted():
                 out.append((pid, "VIOLATION", v["key"] + "  :: " + v.get("what", "")[:150]))
         except AnalysisError as e:
             out.append((pid, "ANALYSIS-ERROR", str(e)[:200]))
